@@ -35,6 +35,18 @@ impl Env {
   }
 }
 
+/// `Instant::now() + h` hours; h < 0 gives an instant in the past (or `now` on a
+/// machine whose uptime is shorter than that)
+pub fn instant_at(h: i32) -> Instant {
+  let now = Instant::now();
+  let d = Duration::from_secs(3600 * h.unsigned_abs() as u64);
+  if h >= 0 {
+    now + d
+  } else {
+    now.checked_sub(d).unwrap_or(now)
+  }
+}
+
 fn edge(e: Edge) -> ThrottleEdge {
   match e {
     Edge::Leading => ThrottleEdge::leading(),
@@ -192,7 +204,12 @@ pub fn build_src(s: &Src, env: &Env) -> Bx {
     Src::Defer(inner) => {
       let (inner, env2) = ((**inner).clone(), env.clone());
       bx(observable::defer(move || {
-        lock!(env2.counters).src_calls += 1;
+        {
+          let mut c = lock!(env2.counters);
+          c.src_calls += 1;
+          c.defer_steps.push(crate::stamp::get());
+          c.defer_vts.push(as_ticks(crate::vtime::now()));
+        }
         build(&inner, &env2)
       }))
     }
@@ -505,6 +522,8 @@ pub fn build(node: &Node, env: &Env) -> Bx {
         Un::ObserveOn => two!(tf, s.observe_on(VSched), s.observe_on_threads(VSched)),
         Un::Delay(d) => two!(tf, s.delay(ticks(*d), VSched), s.delay_threads(ticks(*d), VSched)),
         Un::DelaySubscription(d) => bx(s.delay_subscription(ticks(*d), VSched)),
+        Un::DelayAt(h) => two!(tf, s.delay_at(instant_at(*h), VSched), s.delay_at_threads(instant_at(*h), VSched)),
+        Un::DelaySubscriptionAt(h) => bx(s.delay_subscription_at(instant_at(*h), VSched)),
         Un::SubscribeOn => bx(s.subscribe_on(VSched)),
         Un::Debounce(d) => bx(s.debounce(ticks(*d), VSched)),
         Un::ThrottleTime(d, e) => bx(s.throttle_time(ticks(*d), edge(*e), VSched)),
@@ -780,7 +799,206 @@ pub fn exec(case: &PCase, sample_closed: bool) -> Trace {
   tr.live_tasks_end = vtime::live_tasks();
   tr.pending_timers_end = vtime::pending_timers();
   tr.status_flags = lock!(env.statuses).iter().map(|s| (s.is_completed(), s.error_occur())).collect();
+  tr.requested = vtime::requested().iter().map(|d| d.as_millis() as u64).collect();
   std::mem::forget(guard); // a guard never dropped by the script must not unsubscribe behind our back
   drop(sub);
   tr
+}
+
+
+// ------------------------------------------------------- time / async sources
+
+#[derive(Default, Debug, Clone)]
+pub struct PollStats {
+  pub polls: usize,
+  pub polls_after_end: usize,
+}
+
+pub struct ScriptedStream {
+  script: Vec<SEv>,
+  pos: usize,
+  ended: bool,
+  waiting: Option<crate::vtime::BoxTimer>,
+  stats: Sh<PollStats>,
+}
+
+fn self_wake(cx: &mut std::task::Context<'_>) {
+  cx.waker().wake_by_ref();
+  if let Some(id) = crate::vtime::current_task() {
+    crate::vtime::mark_ready(id);
+  }
+}
+
+impl ScriptedStream {
+  /// next scripted event: Ok(Some(item/fail)) | Ok(None) = end | Err(()) = pending
+  fn step(&mut self, cx: &mut std::task::Context<'_>) -> Result<Option<Result<V, E>>, ()> {
+    use std::future::Future;
+    lock!(self.stats).polls += 1;
+    if self.ended {
+      lock!(self.stats).polls_after_end += 1;
+      return Ok(None);
+    }
+    loop {
+      if let Some(t) = self.waiting.as_mut() {
+        match t.as_mut().poll(cx) {
+          std::task::Poll::Ready(()) => self.waiting = None,
+          std::task::Poll::Pending => return Err(()),
+        }
+      }
+      if self.pos >= self.script.len() {
+        self.ended = true;
+        return Ok(None);
+      }
+      let ev = self.script[self.pos].clone();
+      self.pos += 1;
+      match ev {
+        SEv::Item(v) => return Ok(Some(Ok(v))),
+        SEv::Fail(e) => return Ok(Some(Err(e))),
+        SEv::Pend => {
+          self_wake(cx);
+          return Err(());
+        }
+        SEv::PendUntil(dt) => self.waiting = Some(crate::vtime::new_vtimer(ticks(dt))),
+      }
+    }
+  }
+}
+
+/// plain stream: a scripted failure ends the stream (from_stream has no error channel)
+pub struct PlainStream(ScriptedStream);
+impl futures::Stream for PlainStream {
+  type Item = V;
+  fn poll_next(mut self: std::pin::Pin<&mut Self>, cx: &mut std::task::Context<'_>) -> std::task::Poll<Option<V>> {
+    match self.0.step(cx) {
+      Err(()) => std::task::Poll::Pending,
+      Ok(None) => std::task::Poll::Ready(None),
+      Ok(Some(Ok(v))) => std::task::Poll::Ready(Some(v)),
+      Ok(Some(Err(_))) => {
+        self.0.ended = true;
+        std::task::Poll::Ready(None)
+      }
+    }
+  }
+}
+pub struct ResultStream(ScriptedStream);
+impl futures::Stream for ResultStream {
+  type Item = Result<V, E>;
+  fn poll_next(mut self: std::pin::Pin<&mut Self>, cx: &mut std::task::Context<'_>) -> std::task::Poll<Option<Result<V, E>>> {
+    match self.0.step(cx) {
+      Err(()) => std::task::Poll::Pending,
+      Ok(None) => std::task::Poll::Ready(None),
+      Ok(Some(r)) => {
+        if r.is_err() {
+          self.0.ended = true; // a TryStream consumer must not poll again after the error
+        }
+        std::task::Poll::Ready(Some(r))
+      }
+    }
+  }
+}
+
+pub struct ScriptedFuture<T> {
+  pend: usize,
+  waiting: Option<crate::vtime::BoxTimer>,
+  out: Option<T>,
+  stats: Sh<PollStats>,
+}
+impl<T: Unpin> std::future::Future for ScriptedFuture<T> {
+  type Output = T;
+  fn poll(mut self: std::pin::Pin<&mut Self>, cx: &mut std::task::Context<'_>) -> std::task::Poll<T> {
+    lock!(self.stats).polls += 1;
+    if self.out.is_none() {
+      lock!(self.stats).polls_after_end += 1;
+      return std::task::Poll::Pending;
+    }
+    if self.pend > 0 {
+      self.pend -= 1;
+      self_wake(cx);
+      return std::task::Poll::Pending;
+    }
+    if let Some(t) = self.waiting.as_mut() {
+      match t.as_mut().poll(cx) {
+        std::task::Poll::Ready(()) => self.waiting = None,
+        std::task::Poll::Pending => return std::task::Poll::Pending,
+      }
+    }
+    std::task::Poll::Ready(self.out.take().unwrap())
+  }
+}
+
+pub struct SrcTrace {
+  pub recs: Vec<Rec>,
+  pub stats: PollStats,
+  /// durations (ms) asked from the timer function while this source was being subscribed
+  pub requested_at_subscribe: Vec<u64>,
+}
+
+pub fn build_tsrc(t: &TSrc, stats: &Sh<PollStats>) -> Bx {
+  let mk_stream = |script: &Vec<SEv>| ScriptedStream { script: script.clone(), pos: 0, ended: false, waiting: None, stats: stats.clone() };
+  match t {
+    TSrc::Interval(p) => bx(observable::interval(ticks(*p), VSched).map(|n: usize| V::I(n as i64)).on_error_map(inf as InfFn)),
+    TSrc::IntervalAt(h, ph) => {
+      bx(observable::interval_at(instant_at(*h), Duration::from_secs(3600 * *ph), VSched).map(|n: usize| V::I(n as i64)).on_error_map(inf as InfFn))
+    }
+    TSrc::Timer(v, d) => bx(observable::timer(v.clone(), ticks(*d), VSched).on_error_map(inf as InfFn)),
+    TSrc::TimerAt(v, h) => bx(observable::timer_at(v.clone(), instant_at(*h), VSched).on_error_map(inf as InfFn)),
+    TSrc::Future(pend, until, v) => {
+      let f = ScriptedFuture { pend: *pend, waiting: until.map(|d| crate::vtime::new_vtimer_lazy(ticks(d))), out: Some(v.clone()), stats: stats.clone() };
+      bx(observable::from_future(f, VSched).on_error_map(inf as InfFn))
+    }
+    TSrc::FutureResult(pend, until, r) => {
+      let f = ScriptedFuture { pend: *pend, waiting: until.map(|d| crate::vtime::new_vtimer_lazy(ticks(d))), out: Some(r.clone()), stats: stats.clone() };
+      bx(observable::from_future_result(f, VSched))
+    }
+    TSrc::Stream(script) => bx(observable::from_stream(PlainStream(mk_stream(script)), VSched).on_error_map(inf as InfFn)),
+    TSrc::StreamResult(script) => bx(observable::from_stream_result(ResultStream(mk_stream(script)), VSched)),
+  }
+}
+
+/// C08: subscribe every source at t = 0 (own probe each), then run the clock / executor script
+pub fn exec_sources(srcs: &[TSrc], script: &[Step], mode: SchedMode) -> Vec<SrcTrace> {
+  use crate::vtime;
+  vtime::reset(conv_mode(mode));
+  crate::stamp::set(crate::stamp::AT_SUBSCRIBE);
+  let mut probes = vec![];
+  let mut subs = vec![];
+  for t in srcs {
+    let stats = sh(PollStats::default());
+    let before = vtime::requested().len();
+    let p = build_tsrc(t, &stats);
+    let probe = Probe::new();
+    subs.push(p.actual_subscribe(probe.clone()));
+    let req: Vec<u64> = vtime::requested()[before..].iter().map(|d| d.as_millis() as u64).collect();
+    probes.push((probe, stats, req));
+  }
+  let prompt = mode == SchedMode::Fifo;
+  if prompt {
+    vtime::run_until_stalled();
+  }
+  for (k, st) in script.iter().enumerate() {
+    crate::stamp::set(k);
+    match st {
+      Step::Advance(n) => vtime::advance(ticks(*n), prompt),
+      Step::FireNext => {
+        vtime::fire_next_timer();
+        if prompt {
+          vtime::run_until_stalled();
+        }
+      }
+      Step::Run => vtime::run_until_stalled(),
+      Step::RunReady(j) => {
+        let n = vtime::ready_count();
+        if n > 0 {
+          vtime::run_ready(*j % n);
+        }
+      }
+      _ => {}
+    }
+  }
+  crate::stamp::set(script.len());
+  // final executor run (no further clock movement: periodic sources never end)
+  vtime::run_until_stalled();
+  let out = probes.into_iter().map(|(p, s, req)| SrcTrace { recs: p.recs(), stats: lock!(s).clone(), requested_at_subscribe: req }).collect();
+  drop(subs);
+  out
 }
